@@ -702,7 +702,7 @@ func (ctx Ctx) makeExpr(args []ast.Expr) coq.CallExpr {
 
 // newExpr parses a call to new() into an appropriate allocation
 func (ctx Ctx) newExpr(ty ast.Expr) coq.CallExpr {
-	if sel, ok := ty.(*ast.SelectorExpr); ok {
+	if sel, ok := ty.(*ast.SelectorExpr); ok && ctx.isBuiltinPkg(sel.X) {
 		if isIdent(sel.X, "sync") && isIdent(sel.Sel, "Mutex") {
 			return coq.NewCallExpr(coq.GallinaIdent("lock.new"))
 		}
